@@ -159,6 +159,39 @@ def corpus():
     return res
 
 
+def other_charsets(out, rng):
+    """save then load under charsets the model keeps abstract (implementation against the statement): the same texts come back"""
+    import io
+    import mido
+    texts = ['abc', 'Gr\u00f6\u00dfe', '\u00e9t\u00e9 \u20ac', '\u65e5\u672c\u8a9e', 'A\u0100B', '']
+    n = 0
+    for cs in ('utf-8', 'utf-16-le', 'utf-16', 'cp1252', 'shift_jis', 'latin1', 'cp437', 'utf-32'):
+        for _ in range(3):
+            ts = [t for t in rng.sample(texts, 3)]
+            try:
+                for t in ts:
+                    t.encode(cs)
+            except UnicodeEncodeError:
+                continue
+            n += 1
+            tr = mido.MidiTrack([mido.MetaMessage('track_name', name=ts[0], time=1), mido.Message('note_on', note=1, time=2),
+                                 mido.MetaMessage('text', text=ts[1], time=3), mido.MetaMessage('lyrics', text=ts[2], time=0)])
+            mf = mido.MidiFile(type=1, charset=cs)
+            mf.tracks.append(tr)
+            try:
+                buf = io.BytesIO()
+                mf.save(file=buf)
+                back = mido.MidiFile(file=io.BytesIO(buf.getvalue()), charset=cs)
+                got = [(m.time, getattr(m, 'text', getattr(m, 'name', None))) for m in back.tracks[0] if m.is_meta and m.type != 'end_of_track']
+                want = [(1, ts[0]), (3, ts[1]), (0, ts[2])]
+                if got != want:
+                    out.failures.append(('charset-roundtrip', 'saved and loaded with charset %s: texts %r came back as %r' % (cs, want, got), {'component': 'charsets', 'charset': cs, 'texts': ts}))
+            except Exception as e:  # noqa: BLE001
+                out.failures.append(('charset-roundtrip', 'saving / loading texts %r with charset %s raised %r' % (ts, cs, e), {'component': 'charsets', 'charset': cs, 'texts': ts}))
+    out.evaluations += n
+    out.components['other charsets (implementation against the statement)'] = {'cases': n}
+
+
 def limit_case(out):
     """the reader's length limit (implementation only: the inputs are a megabyte each): a sysex event of exactly MAX_MESSAGE_LENGTH bytes
     without the closing F7 loads, but its saved form is one byte longer and no longer loads - the load-save-load clause fails there"""
@@ -237,6 +270,7 @@ def run(out):
     for tag, rec in core.pmap(job, jobs):
         core.merge_into(out, rec, tag)
     limit_case(out)
+    other_charsets(out, rng)
     out.rule = ('%d generated files (types 0/1/2, 0-4 tracks, 0-24 events mixing channel runs that trigger and break running status, system '
                 'common, sysex of length 0..129, all 17 known meta types at range limits, unknown meta types, end_of_track missing/repeated/'
                 'mid-track, deltas at every variable-length-quantity boundary), a quarter of them with one kind of unstorable content; saved bytes '
